@@ -838,22 +838,34 @@ def _own(pdf, cuts):
 _PQ = {}
 
 
-def _parquet():
-    """T_int written as a two-file parquet dataset (scratch directory of this process, removed at exit),
-    read back through the arrow filesystem (the reader that accepts pushed-down filters)"""
+def _parquet_dir():
+    """T_int written as a two-file parquet dataset into a scratch directory; created once (by the parent
+    process before it forks workers, which inherit the path) and removed by its creator at exit."""
     import atexit
     import shutil
     import tempfile
 
     import dask_expr as dx
 
-    key = os.getpid()
-    if key not in _PQ:
+    if "dir" not in _PQ or not os.path.isdir(_PQ["dir"]):
         d = tempfile.mkdtemp(prefix="c01pq")
-        atexit.register(shutil.rmtree, d, True)
+        creator = os.getpid()
+
+        def _cleanup():
+            if os.getpid() == creator:
+                shutil.rmtree(d, True)
+
+        atexit.register(_cleanup)
         dx.from_pandas(e2e.T_int(), npartitions=2).to_parquet(d)
-        _PQ[key] = d
-    return dx.read_parquet(_PQ[key], filesystem="arrow")
+        _PQ["dir"] = d
+    return _PQ["dir"]
+
+
+def _parquet():
+    """read back through the arrow filesystem (the reader that accepts pushed-down filters)"""
+    import dask_expr as dx
+
+    return dx.read_parquet(_parquet_dir(), filesystem="arrow")
 
 
 def _len_expr(coll):
@@ -1078,7 +1090,7 @@ def support_cases(ctx, broken):
                 break
         for i, n in enumerate(must):
             # both methods and a known-/unknown-divisions layout alternate over the must-run list
-            lay = (0, 1, 2)[i % 3] if n in _KNOWN_DIVISIONS_ONLY else (0, 3, 1, 4)[i % 4]
+            lay = (0, 2)[i % 2] if n in _KNOWN_DIVISIONS_ONLY else (0, 3, 1, 4)[i % 4]
             cases.append({"program": n, "layout": lay, "method": METHODS[i % 2]})
         for i, n in enumerate(sorted(sel)):
             cases.append({"program": n, "layout": i % nl, "method": METHODS[(i // nl) % 2]})
@@ -1139,6 +1151,7 @@ def _signature(r, case):
 def support(ctx, broken):
     sup = Support()
     cases = support_cases(ctx, broken)
+    _parquet_dir()  # before forking: the workers share one scratch dataset
     results = _pmap(_run_case_safe, cases, chunksize=4)
     seen_sigs = set()
     for case, r in zip(cases, results):
